@@ -134,6 +134,12 @@ pub struct Judge<'a> {
 
 /// evaluate one candidate image; returns true if a violation was reported
 pub fn judge_mount(rep: &mut Report, args: &Args, base: &str, what: &str, img: &Image, strict: bool, replay_extra: J) {
+    // `--limit N`: stop early (used by the Miri smoke run, where every mount costs milliseconds)
+    if let Some(l) = args.get("limit").and_then(|v| v.parse::<u64>().ok()) {
+        if rep.evaluations >= l {
+            return;
+        }
+    }
     rep.evaluations += 1;
     let b = img.bytes(0, 512);
     let raw = parse_raw_bpb(&b);
